@@ -534,6 +534,29 @@ def rule_fold_zeros(P):
                 why.append("no accumulate step taking the result and the temporary was recognised")
             R.fail(iid, where(f, unp[0].line), Finding(R.rule, f["file"], base_name(f["q"]), "unpack@%s" % flag,
                    "the fold visits only the non-zero children (%s) but %s: the zero entries of a node never reach the result" % (flag, "; ".join(why)), unp[0].line, inst=f["inst"]))
+    # identity-reduced relations: a skipped pair of levels stands for the identity pattern — the value on the diagonal, 0 off it.  A fold whose
+    # accumulate step is not a plain sum (minimum, maximum) has to fold that 0 in, which takes the level it is at and the forest's reduction rule.
+    seen_t = set()
+    for f in sorted(P.fns.values(), key=lambda f: (f["file"], f["line"], f["inst"])):
+        if not f.get("cfg") or not f["file"].startswith("operations/") or (f["file"], f["line"]) in seen_t:
+            continue
+        res = [p_["name"] for p_ in f.get("params", []) if "oper_item" in (p_.get("rec") or "")]
+        g = Graph(f) if res else None
+        if not res or not any(k.kind == "call" and k.ev["q"] == f["q"] and any("down(" in a for a in k.ev.get("args", [])) for k in g.nodes):
+            continue
+        acc = [k for k in g.nodes if k.kind == "call" and len(k.ev.get("args", [])) == 2 and _nz(k.ev["args"][0]) in res and not k.ev["q"].endswith("::set") and k.ev["q"].startswith(M)]
+        sums = all(k.ev["q"].split("::")[-1] in ("addTo",) for k in acc)
+        seen_t.add((f["file"], f["line"]))
+        if sums:
+            continue
+        R.paths += 1
+        iid = "%s: skipped identity levels contribute their off-diagonal 0" % base_name(f["q"]).replace(M, "")[:70]
+        asks = any(k.kind == "call" and k.ev["q"].endswith("isIdentityReduced") for k in g.nodes)
+        if asks:
+            R.ok(iid, where(f))
+        else:
+            R.fail(iid, where(f), Finding(R.rule, f["file"], base_name(f["q"]), "identity-skips",
+                   "the scan never asks whether the forest is identity reduced and has no level to compare node levels with: levels skipped as identity patterns contribute only their diagonal value, the 0 off the diagonal never reaches the minimum / maximum", f["line"]))
     if n < 7:
         raise AnalysisBroken("fold.covers-zeros: expected the 7 scalar folds (3 cardinalities, 4 range scans), found %d" % n)
     R.require_floor(7, "scalar folds")
